@@ -592,6 +592,148 @@ func TestVerifC02(t *testing.T) {
 			os.RemoveAll(dir)
 		}
 	})
+
+	// ---- aborted uploads + concurrent clients (shared with C01): an
+	// acknowledged PUT must be retrievable whatever the handlers share
+	vkConcurrent(t, run, hs, base, "C02", run.N(16, 200))
+
+	// ---- two overlapping PUTs of the SAME block on one volume: A is held at
+	// one of its yield points while B runs up to one of its own and is then
+	// cancelled (client disconnect); A is resumed and, if acknowledged, the
+	// block must be retrievable from a new server on the same directory.
+	c02Overlap(t, run, hs, newDir, &judgeMu)
+}
+
+func c02Overlap(t *testing.T, run *verifkit.Run, hs *vkHTTP, newDir func() string, judgeMu *sync.Mutex) {
+	type ov struct {
+		Size  int `json:"size"`
+		HoldA int `json:"hold_a_at_point"`
+		StopB int `json:"cancel_b_at_point"`
+	}
+	sizes := []int{100 << 10, 300 << 10}
+	var cases []ov
+	for _, sz := range sizes {
+		// A: mkdir, tempfile, io.Copy, chunks..., close, chtimes, rename ≈ 10-17 points
+		for holdA := 2; holdA <= 12; holdA += 2 {
+			for _, stopB := range []int{2, 3, 4, 6} {
+				cases = append(cases, ov{sz, holdA, stopB})
+			}
+		}
+	}
+	run.Cases("overlap", len(cases), func(i int, rng *verifkit.Rand) {
+		c := cases[i]
+		if !run.Thorough() && (i+int(run.Seed()))%3 != 0 {
+			return // quick: a seed-chosen third
+		}
+		sc := c02Scenario{Size: c.Size, NVol: 1, Pre: "none", Cseed: rng.Uint64()}
+		run.Input(map[string]interface{}{"overlap": c, "scenario": sc}, false)
+		data, h := c02Data(sc)
+		dir := newDir()
+		defer os.RemoveAll(dir)
+		vols, fixtures := c02Setup(t, sc, dir)
+		cluster := vkCluster(t)
+		srv := vkNewServer(t, cluster, vols, false)
+		defer srv.Close()
+		var goidA, goidB int64
+		var mu sync.Mutex
+		cntA, cntB := 0, 0
+		holdA := make(chan struct{})
+		aHeld := make(chan struct{})
+		cnB := make(chan bool, 1)
+		bStopped := make(chan struct{})
+		var onceHeld, onceStop sync.Once
+		// which request a step belongs to: the request goroutine itself, or a
+		// goroutine it started (the pipe writer) — the latter are attributed by
+		// "who is currently unheld": while A is held only B's steps arrive
+		aIsHeld := int32(0)
+		verifSetHook(func(label string) {
+			id := c04Goid()
+			isB := id == atomic.LoadInt64(&goidB) || (id != atomic.LoadInt64(&goidA) && atomic.LoadInt32(&aIsHeld) == 1)
+			mu.Lock()
+			if isB {
+				cntB++
+				nb := cntB
+				mu.Unlock()
+				if nb == c.StopB {
+					onceStop.Do(func() { cnB <- true; time.Sleep(3 * time.Millisecond); close(bStopped) })
+				}
+				return
+			}
+			cntA++
+			na := cntA
+			mu.Unlock()
+			if na == c.HoldA {
+				atomic.StoreInt32(&aIsHeld, 1)
+				onceHeld.Do(func() { close(aHeld) })
+				<-holdA
+				atomic.StoreInt32(&aIsHeld, 0)
+			}
+		})
+		defer verifSetHook(nil)
+		put := func(cn chan bool, goid *int64) int {
+			atomic.StoreInt64(goid, c04Goid())
+			req := httptest.NewRequest("PUT", "/"+h, bytes.NewReader(data))
+			req.ContentLength = int64(len(data))
+			req.Header.Set("Authorization", "OAuth2 "+vkRootToken)
+			rec := &c02Recorder{ResponseRecorder: httptest.NewRecorder(), cn: cn}
+			srv.handler.ServeHTTP(rec, req)
+			return rec.Code
+		}
+		codeA := make(chan int, 1)
+		go func() { codeA <- put(make(chan bool, 1), &goidA) }()
+		select {
+		case <-aHeld:
+		case st := <-codeA:
+			// A finished before reaching the hold point (fewer points than HoldA)
+			run.Count("overlap_a_finished_before_hold", 1)
+			codeA <- st
+		case <-time.After(30 * time.Second):
+			run.Inconclusive("overlap: A neither finished nor reached its hold point")
+			close(holdA)
+			return
+		}
+		codeB := make(chan int, 1)
+		go func() { codeB <- put(cnB, &goidB) }()
+		// B either gets cancelled at its StopB-th point, or finishes, or blocks
+		// behind A (volume lock): bounded wait, steering only
+		select {
+		case <-bStopped:
+		case st := <-codeB:
+			codeB <- st
+		case <-time.After(500 * time.Millisecond):
+		}
+		close(holdA)
+		stA := <-codeA
+		var stB int
+		select {
+		case stB = <-codeB:
+		case <-time.After(30 * time.Second):
+			run.Inconclusive("overlap: B did not finish")
+		}
+		// quiescence
+		last := atomic.LoadInt64(&verifPointsHit)
+		for idle := 0; idle < 10; {
+			time.Sleep(5 * time.Millisecond)
+			if cur := atomic.LoadInt64(&verifPointsHit); cur == last {
+				idle++
+			} else {
+				idle, last = 0, cur
+			}
+		}
+		acked := stA == 200 || stB == 200
+		judgeMu.Lock()
+		viol, ev := c02Judge(t, sc, dir, fixtures, acked, hs, "after-overlap")
+		judgeMu.Unlock()
+		run.Eval(ev)
+		run.Count("overlap_cases", 1)
+		if stB != 200 {
+			run.Count("overlap_b_not_acked", 1)
+		}
+		run.Feature(fmt.Sprintf("overlap:size=%d,holdA=%d,stopB=%d,a=%d,b=%d", c.Size, c.HoldA, c.StopB, stA, stB))
+		for _, v := range viol {
+			run.Violation(v.sig, fmt.Sprintf("%s; two overlapping PUTs of one block: A held at its point %d, B cancelled at its point %d; A answered %d, B %d", v.detail, c.HoldA, c.StopB, stA, stB), c)
+		}
+	})
 }
 
 // c02Recorder is a ResponseWriter whose CloseNotify channel the harness owns.
